@@ -55,9 +55,13 @@ Definition nicks0 : list (str * str) := [([97; 110; 111; 110], [97; 110; 111; 11
 Definition p_anon : str := [97; 110; 111; 110; 33; 97; 64; 104; 111; 115; 116; 46; 97; 110; 111; 110].
 Definition p_adm : str := [97; 100; 109; 33; 109; 64; 104; 111; 115; 116; 46; 97; 100; 109].
 Definition p_plain : str := [112; 108; 97; 105; 110; 33; 112; 64; 104; 111; 115; 116; 46; 112; 108; 97; 105; 110].
-Definition E_anon : env := Env p_anon [(p_anon, None)] nicks0.
-Definition E_adm : env := Env p_adm [(p_adm, Some 2%Z)] nicks0.
-Definition E_plain : env := Env p_plain [(p_plain, Some 3%Z)] nicks0.
+Definition E_anon : env := Env p_anon [(p_anon, None)] nicks0 None.
+Definition E_adm : env := Env p_adm [(p_adm, Some 2%Z)] nicks0 None.
+Definition E_plain : env := Env p_plain [(p_plain, Some 3%Z)] nicks0 None.
+(* the same senders speaking in channel #c *)
+Definition E_adm_c : env := Env p_adm [(p_adm, Some 2%Z)] nicks0 (Some [35; 99]).
+Definition E_plain_c : env := Env p_plain [(p_plain, Some 3%Z)] nicks0 (Some [35; 99]).
+Definition E_anon_c : env := Env p_anon [(p_anon, None)] nicks0 (Some [35; 99]).
 (* user register ''x\n  capability owner'' pw *)
 Definition t_f1 : str := [117; 115; 101; 114; 32; 114; 101; 103; 105; 115; 116; 101; 114; 32; 34; 120; 92; 110; 32; 32; 99; 97; 112; 97; 98; 105; 108; 105; 116; 121; 32; 111; 119; 110; 101; 114; 34; 32; 112; 119].
 (* admin capability add plain '' owner'' *)
@@ -164,8 +168,8 @@ Proof.
     eexists. split; [simpl; right; right; left; reflexivity|]. split; vm_compute; reflexivity.
   - intros (a & Hin & Ha & Hc). simpl in Hin.
     destruct Hin as [H|[H|[H|[]]]]; subst a; vm_compute in Ha; vm_compute in Hc; congruence.
-  - eapply (GChan s0 E_adm t_chan 3%Z c_chanvoice [35; 99] [112; 108; 97; 105; 110] [118; 111; 105; 99; 101] [118; 111; 105; 99; 101]).
-    + vm_compute; reflexivity.
+  - eapply (GChan s0 E_adm t_chan 3%Z c_chanvoice [[35; 99]; [112; 108; 97; 105; 110]; [118; 111; 105; 99; 101]]
+                   [35; 99] [112; 108; 97; 105; 110] [118; 111; 105; 99; 101] [118; 111; 105; 99; 101]).
     + vm_compute; reflexivity.
     + vm_compute; reflexivity.
     + vm_compute; reflexivity.
@@ -201,4 +205,19 @@ Definition s_emptypw : st :=
 Definition t_hostadd_root : str := [117; 115; 101; 114; 32; 104; 111; 115; 116; 109; 97; 115; 107; 32; 97; 100; 100; 32; 114; 111; 111; 116].
 Example f44_refused :
   effect_of s_nopw E_anon t_hostadd_root = ENone /\ effect_of s_emptypw E_anon t_hostadd_root = ENone.
+Proof. vm_compute. auto. Qed.
+
+(* ---- messages said in a channel ---- *)
+(* `channel capability add plain voice` said in #c by its op: the channel is the one the message was said in *)
+Definition t_chan_implicit : str := [99; 104; 97; 110; 110; 101; 108; 32; 99; 97; 112; 97; 98; 105; 108; 105; 116; 121; 32; 97; 100; 100; 32; 112; 108; 97; 105; 110; 32; 118; 111; 105; 99; 101].
+Example ex_inchannel_grant :
+  eff_code (effect_of s0 E_adm_c t_chan_implicit) = 1%Z /\ grantb s0 E_adm_c t_chan_implicit 3%Z c_chanvoice = true
+  /\ effect_of s0 E_plain_c t_chan_implicit = ENone            (* plain does not hold #c,op *)
+  /\ effect_of s0 E_adm t_chan_implicit = ENone.               (* in private there is no channel to fall back on *)
+Proof. vm_compute. auto. Qed.
+(* the User commands refuse to run in a channel ('private'); the Admin ones run there under the same admin gate *)
+Definition t_reg : str := [117; 115; 101; 114; 32; 114; 101; 103; 105; 115; 116; 101; 114; 32; 122; 101; 100; 32; 112; 119].
+Example ex_inchannel_private :
+  eff_code (effect_of s0 E_anon t_reg) = 3%Z /\ effect_of s0 E_anon_c t_reg = ENone
+  /\ eff_code (effect_of s0 E_adm_c t_foo) = 1%Z /\ effect_of s0 E_plain_c t_foo = ENone.
 Proof. vm_compute. auto. Qed.
